@@ -125,6 +125,12 @@ class Engine:
                 kind, n, arg = clean.events[i]
                 if kind in ("pre_attach", "pre_detach") and isinstance(arg, int) and len(clean.snaps[i][arg][1]) > (1 if kind == "pre_detach" else 0):
                     self.one(family, ch, call, ("evict", i))
+        if self.lockstep and call[0] in ("delchildren", "setchildren"):
+            # lock step only (no model is needed): a _pre_detach_children hook that re-homes one of the children
+            for i, (kind, n, arg) in enumerate(clean.events):
+                if kind == "pre_detach_children" and arg and len(ch) > 2:
+                    self.one(family, ch, call, ("rehome", i))
+                    self.ctx.count("C18.rehoming_group_hook")
         if not self.faults or level == 0:
             return
         k = len(ch)
@@ -365,6 +371,8 @@ class Engine:
                         planspec = ("multi", tuple(sorted(rng.sample(range(0, 14), 2))))
                     else:
                         planspec = ("persist", rng.choice(F.KINDS), rng.choice([None, rng.randrange(k)]))
+                elif self.lockstep and call[0] != "setparent" and rng.random() < 0.15:
+                    planspec = ("rehome", 0)
                 else:
                     planspec = ("none",)
                 hist.append([F._jsonable(call), F._jsonable(planspec)])
